@@ -335,10 +335,25 @@ type Style struct {
 	ExplicitDefaultReq bool // unused (Thrift has no keyword for default requiredness)
 	OneLine   bool   // fields on one line
 	Semis     bool   // terminate top-level statements with ';'
+	IntForm   string // integer literals: "" plain decimal, "pad" zero-padded (010 is ten), "plus" explicit sign (+10)
+}
+
+// integer renders an integer literal (field id, enum value, constant) in the style's lexical form;
+// every form denotes the same decimal number in Thrift.
+func (s Style) integer(n int64) string {
+	switch {
+	case s.IntForm == "pad" && n >= 0:
+		return "0" + strconv.FormatInt(n, 10)
+	case s.IntForm == "pad":
+		return "-0" + strconv.FormatInt(n, 10)[1:]
+	case s.IntForm == "plus" && n >= 0:
+		return "+" + strconv.FormatInt(n, 10)
+	}
+	return strconv.FormatInt(n, 10)
 }
 
 func (s Style) String() string {
-	return fmt.Sprintf("sep=%q comment=%q quote=%c oneline=%v semis=%v", s.Sep, s.Comment, s.Quote, s.OneLine, s.Semis)
+	return fmt.Sprintf("sep=%q comment=%q quote=%c oneline=%v semis=%v ints=%q", s.Sep, s.Comment, s.Quote, s.OneLine, s.Semis, s.IntForm)
 }
 
 type renderer struct {
@@ -363,7 +378,7 @@ func (r *renderer) gap() string {
 func (r *renderer) lit(l *Lit) string {
 	switch l.Kind {
 	case "int":
-		return strconv.FormatInt(l.Int, 10)
+		return r.st.integer(l.Int)
 	case "double":
 		s := strconv.FormatFloat(l.Dbl, 'f', -1, 64)
 		if !strings.Contains(s, ".") {
@@ -414,7 +429,7 @@ func (r *renderer) annots(a []Annot) string {
 }
 
 func (r *renderer) field(f *Field, withReq bool) string {
-	s := fmt.Sprintf("%d:", f.ID)
+	s := r.st.integer(int64(f.ID)) + ":"
 	if withReq && f.Req != "default" {
 		s += " " + f.Req
 	}
@@ -478,7 +493,7 @@ func Render(f *File, st Style) string {
 			for i, v := range d.Enum.Values {
 				w.WriteString("  " + v.Name)
 				if v.Explicit != nil {
-					w.WriteString(fmt.Sprintf(" = %d", *v.Explicit))
+					w.WriteString(" = " + st.integer(int64(*v.Explicit)))
 				}
 				if st.Sep != "" && (i < len(d.Enum.Values)-1 || st.Sep == ";") {
 					w.WriteString(st.Sep)
@@ -564,7 +579,14 @@ func Styles(all bool) []Style {
 						if !all && (semi != (sep == ";")) && !(sep == "," && !semi) {
 							continue
 						}
-						out = append(out, Style{Sep: sep, Comment: c, Quote: q, OneLine: one, Semis: semi})
+						if all {
+							for _, f := range []string{"", "pad", "plus"} {
+								out = append(out, Style{Sep: sep, Comment: c, Quote: q, OneLine: one, Semis: semi, IntForm: f})
+							}
+							continue
+						}
+						// quick: the integer form rotates, so every program is still rendered in all three
+						out = append(out, Style{Sep: sep, Comment: c, Quote: q, OneLine: one, Semis: semi, IntForm: []string{"", "pad", "plus"}[len(out)%3]})
 					}
 				}
 			}
